@@ -252,6 +252,11 @@ impl Exec {
                 if b.reads[u] > c[u] {
                     ok = false;
                     let d = format!("thread {} {} block #{} ({} bytes, align {}) but the last access by thread {} does not happen-before it", t, what, b.serial, b.size, b.align, u);
+                    if what == "frees" {
+                        // "freed ... after the last handle is gone", in the sense the quantifier of C05 gives to "after" (every
+                        // outcome the C11 model allows): a free that is not ordered after another thread's last use is not after it
+                        self.viol("C05", "freed-without-being-ordered-after-the-last-use", d.clone());
+                    }
                     self.viol("C06", if what == "frees" { "free-races-with-use" } else { "exclusive-write-races-with-use" }, d);
                 }
             }
